@@ -89,6 +89,9 @@ ENCODINGS = {
     "multiclass": (3, 7, 11),
     "npint": (np.int64(4), np.int64(9), np.int64(2)),
     "npstr": (np.str_("a"), np.str_("bb"), np.str_("ccc")),
+    # label alphabets that mix types: a string and the number it spells are different labels ("1" != 1); code that brings
+    # both labels to a common dtype before comparing them would make them equal
+    "mixedtypes": (1, "1", 0.5, "0.5", True, "True"),
 }
 
 
@@ -108,6 +111,8 @@ def body_concrete_encodings(ctx, det, enc, container, N):
         b = a if agree else vals[(i + 1) % len(vals)]
         if enc == "bool" and not agree:
             b = not a
+        if enc == "mixedtypes" and not agree:
+            b = vals[(i % len(vals)) ^ 1]  # the other spelling of the same value
         A.update(1, 1 if agree else 0)
         B.update(_wrap(container, a), _wrap(container, b))
         sa = {k: v for k, v in vars(A).items() if k != "_bucket_row_list"}
@@ -246,7 +251,7 @@ def jobs(tier):
                            expect=("compared",)))
     for det in ("DDM", "EDDM", "STEPD", "ADWINAccuracy"):
         for enc in ENCODINGS:
-            cont = {"str": "list", "bool": "plain", "float": "array", "multiclass": "plain", "npint": "list", "npstr": "plain"}[enc]
+            cont = {"str": "list", "bool": "plain", "float": "array", "multiclass": "plain", "npint": "list", "npstr": "plain", "mixedtypes": "plain"}[enc]
             out.append(Job(f"encoding-{det}-{enc}", "checks.c16:body_concrete_encodings",
                            {"det": det, "enc": enc, "container": cont, "N": 6 if q else 8}, expect=("compared",),
                            opts={"validate": 0}))
